@@ -121,6 +121,18 @@ def resultToken (z : Zone) (d : DB) : Op → String
 /-- one operation: result token and new state (`peekold` is a pure observation) -/
 def step (z : Zone) (d : DB) (ws : List String) : Option (String × DB) :=
   match ws with
+  | ["retcreate", ts] =>
+    -- a retention run with a create issued while its first physical delete is in progress: the
+    -- create sees the list before the removals, the removals then take the expired segments out
+    (parseOp ["create", ts]).map fun op =>
+      (resultToken z d op, applyOp z (applyOp z d op) .retention)
+  | ["delrace"] =>
+    -- lifecycle deleteExpiredSegments(oldest) racing DeleteOldestSegment on the same segment:
+    -- exactly the oldest segment goes (forced cleanup reports it unless it is the last one)
+    match d.lst with
+    | [] => some ("x:-", d)
+    | [_] => some ("x:1,0", { d with lst := [] })
+    | _ :: rest => some ("x:1,1", { d with lst := rest })
   | ["peekold"] =>
     match d.lst with
     | s :: _ :: _ => some (s!"p:{s.end_}", d)
@@ -145,6 +157,12 @@ def kindOf (w : String) : String := (splitOnChar '.' w).headD ""
 
 def handle (line : String) : String :=
   match (match words line with | w :: r => kindOf w :: r | [] => []) with
+  | ["rms", t, ids] =>
+    match t.toNat?, (if ids == "-" then some [] else (splitOnChar ',' ids).mapM String.toNat?) with
+    | some t, some l =>
+      let r := removeSeg t l
+      if r.isEmpty then "-" else ",".intercalate (r.map toString)
+    | _, _ => "bad-op"
   | ["std", _, zt, u, n, t] =>
     match parseZone zt, parseUnit u, n.toInt?, t.toInt? with
     | some z, some u, some n, some t =>
